@@ -1506,13 +1506,28 @@ class ArrowSerializableDataclass:
                 )
             return inner_type(**nested_kwargs)
 
-        # Handle frozenset reconstruction
+        # Handle frozenset reconstruction.  Elements get the same conversion as
+        # list elements: without it an Enum comes back as its name and a nested
+        # dataclass as a (unhashable) dict.
         if get_origin(inner_type) is frozenset and isinstance(value, list):
+            set_args = get_args(inner_type)
+            if set_args:
+                return frozenset(cls._convert_value_for_deserialization(v, set_args[0], ipc_validation) for v in value)
             return frozenset(value)
 
-        # Handle dict reconstruction from list of tuples
+        # Handle dict reconstruction from list of tuples, converting keys and
+        # values by their declared types for the same reason.
         if get_origin(inner_type) is dict and isinstance(value, list):
-            return dict(cast("list[tuple[object, object]]", value))
+            pairs = cast("list[tuple[object, object]]", value)
+            dict_args = get_args(inner_type)
+            if len(dict_args) == 2:
+                return {
+                    cls._convert_value_for_deserialization(k, dict_args[0], ipc_validation): (
+                        cls._convert_value_for_deserialization(v, dict_args[1], ipc_validation)
+                    )
+                    for k, v in pairs
+                }
+            return dict(pairs)
 
         # Handle list with element type conversion
         origin = get_origin(inner_type)
